@@ -1,6 +1,1126 @@
-//! C01 — not implemented yet.
-use mc_core::Ctx;
+//! C01 — transaction execution is deterministic.
+//!
+//! Subjects: every (state, transaction) pair of the breadth-first exploration of the standard transaction
+//! menu (+ WASM-heavy extras) from the base world. For each pair the baseline digest D0 (= `receipt_digest`
+//! of one sequential run, default config, brand-new real `VmModules`) is compared with the digest of the
+//! *same executable on the same database* under every variation of
+//!   (a) the diagnostic settings (24 = kernel trace × cost breakdown × execution trace {None,1,MAX} × debug info),
+//!   (b) the code-cache hit/miss pattern (all vectors with ≤ 2 forced misses + all-miss, through `DetEngine`),
+//!   (c) the OS process (a re-exec'd child repeats the exploration; digest logs compared line by line; the
+//!       child also hosts the kernel-trace half of (a), its stdout is discarded),
+//!   (d) the history (byte-identical databases reached through different paths),
+//!   (e) the thread schedule (2/3 threads on one shared engine under the cooperative scheduler, ≤ 2 preemptions).
+//! Nothing is committed by a compared run: the database only advances by applying D0's own state updates.
+use crate::engine::*;
+use crate::world::*;
+use mc_core::{bfs, par_map, BfsStats, Ctx, Machine};
+use mc_ledger::menu::Tx;
+use mc_ledger::*;
+use serde_json::{json, Map, Value};
+use std::collections::{BTreeMap, BTreeSet};
+use std::io::Write as _;
+use std::sync::atomic::{AtomicU64, Ordering};
+use std::sync::Mutex;
 
-pub fn run(_ctx: Ctx) -> ! {
-    mc_core::machinery_error("C01: not implemented")
+macro_rules! say {
+    ($($arg:tt)*) => {
+        if std::env::var("MC_DET_QUIET").is_ok() { eprintln!($($arg)*); } else { println!($($arg)*); }
+    };
+}
+
+#[derive(Clone, Copy, PartialEq, Eq, Debug)]
+enum Role {
+    Parent,
+    Child,
+}
+
+struct Vms {
+    real: DefaultVmModules,
+    det: DetVm,
+}
+
+struct Pool(Mutex<Vec<Vms>>);
+
+impl Pool {
+    fn with<R>(&self, f: impl FnOnce(&mut Vms) -> R) -> R {
+        let got = self.0.lock().unwrap().pop();
+        let mut v = got.unwrap_or_else(|| Vms { real: new_real_vm(), det: new_det_vm() });
+        let r = f(&mut v);
+        self.0.lock().unwrap().push(v);
+        r
+    }
+}
+
+#[derive(Default)]
+struct Collector {
+    violations: Mutex<Vec<(String, String, Value)>>,
+    classes: Mutex<BTreeMap<String, u64>>,
+    infos: Mutex<BTreeMap<String, u64>>,
+    /// key "history|op" -> (executable id, D0, receipt class)
+    log: Mutex<BTreeMap<String, (String, String, String)>>,
+    /// child only: key "history|op|cfg" -> digest under a kernel-trace config
+    klog: Mutex<BTreeMap<String, String>>,
+    /// raw database id of the post-state -> histories reaching it
+    dcand: Mutex<BTreeMap<String, Vec<Vec<Op>>>>,
+    executions: AtomicU64,
+    cfg_runs: AtomicU64,
+    cache_runs: AtomicU64,
+    cache_forced_misses: AtomicU64,
+    cache_max_calls: AtomicU64,
+    sched_runs: AtomicU64,
+    sched_subjects: AtomicU64,
+    sched_max_points: AtomicU64,
+    hist_cmp: AtomicU64,
+    replay_cmp: AtomicU64,
+    smoke_runs: AtomicU64,
+}
+
+impl Collector {
+    fn class(&self, c: &str, n: u64) {
+        *self.classes.lock().unwrap().entry(c.to_string()).or_insert(0) += n;
+    }
+    fn info(&self, c: &str, n: u64) {
+        *self.infos.lock().unwrap().entry(c.to_string()).or_insert(0) += n;
+    }
+    fn violation(&self, key: String, what: String, case: Value) {
+        self.violations.lock().unwrap().push((key, what, case));
+    }
+    fn ex(&self, n: u64) {
+        self.executions.fetch_add(n, Ordering::Relaxed);
+    }
+}
+
+fn names(h: &[Op]) -> Vec<String> {
+    h.iter().map(|o| o.name()).collect()
+}
+
+/// Re-run both sides twice more so that the report says whether the difference is stable.
+fn describe_mismatch(d0: &str, dv: &str, rerun_d0: &dyn Fn() -> String, rerun_v: &dyn Fn() -> String) -> String {
+    let a: Vec<String> = (0..2).map(|_| rerun_d0()).collect();
+    let b: Vec<String> = (0..2).map(|_| rerun_v()).collect();
+    let short = |s: &str| mc_core::truncate(s, 24);
+    format!(
+        "baseline {} vs variant {}; re-runs: baseline {:?} ({}), variant {:?} ({})",
+        short(d0),
+        short(dv),
+        a.iter().map(|s| short(s)).collect::<Vec<_>>(),
+        if a.iter().all(|x| x == d0) { "stable" } else { "UNSTABLE" },
+        b.iter().map(|s| short(s)).collect::<Vec<_>>(),
+        if b.iter().all(|x| x == dv) { "stable" } else { "UNSTABLE" },
+    )
+}
+
+// ------------------------------------------------------------------------------------------------
+// per-(state, transaction) variation sweep: dimensions (a) and (b)
+// ------------------------------------------------------------------------------------------------
+
+/// All miss plans with ≤ 2 forced misses among `n` instantiate calls, plus all-miss.
+fn miss_plans(n: usize) -> Vec<Plan> {
+    let mut v = vec![];
+    for i in 0..n {
+        v.push(Plan::Miss(vec![i]));
+    }
+    for i in 0..n {
+        for j in i + 1..n {
+            v.push(Plan::Miss(vec![i, j]));
+        }
+    }
+    if n > 2 {
+        v.push(Plan::AllMiss);
+    }
+    v
+}
+
+fn sweep_configs(col: &Collector, db: &InMemorySubstateDatabase, vm: &DefaultVmModules, exe: &Exe, d0: &str, kernel_trace: bool, hist: &[Op], op: Op, mut record: impl FnMut(&str, &str)) {
+    for (label, cfg) in cfg_variants(&exe.cfg, kernel_trace) {
+        let d = outcome_of(&run_once(db, vm, &cfg, &exe.exe));
+        col.ex(1);
+        col.cfg_runs.fetch_add(1, Ordering::Relaxed);
+        record(&label, &d);
+        if d != d0 {
+            let what = describe_mismatch(d0, &d, &|| outcome_of(&run_once(db, &new_real_vm(), &exe.cfg, &exe.exe)), &|| outcome_of(&run_once(db, vm, &cfg, &exe.exe)));
+            col.violation(
+                format!("config:{label}"),
+                format!("digest changes with diagnostic settings {label} for {} after {}: {what}", op.name(), hist_string(hist)),
+                json!({"dimension": "config", "history": names(hist), "op": op.name(), "config": label, "kernel_trace": kernel_trace}),
+            );
+        } else {
+            col.class("config:equal", 1);
+        }
+    }
+}
+
+fn sweep_cache(col: &Collector, db: &InMemorySubstateDatabase, det: &DetVm, exe: &Exe, d0: &str, hist: &[Op], op: Op) {
+    let run = |plan: Plan| -> (String, CallReport) {
+        let (r, rep) = with_ctl(plan, None, || run_once(db, det, &exe.cfg, &exe.exe));
+        (outcome_of(&r), rep)
+    };
+    let check = |kind: &str, plan: Plan, d: &str| {
+        col.ex(1);
+        col.cache_runs.fetch_add(1, Ordering::Relaxed);
+        if d != d0 {
+            let p2 = plan.clone();
+            let what = describe_mismatch(d0, d, &|| outcome_of(&run_once(db, &new_real_vm(), &exe.cfg, &exe.exe)), &|| run(p2.clone()).0);
+            col.violation(
+                format!("cache:{kind}"),
+                format!("digest changes with the code-cache pattern {} for {} after {}: {what}", plan.label(), op.name(), hist_string(hist)),
+                json!({"dimension": "cache", "history": names(hist), "op": op.name(), "plan": plan.label()}),
+            );
+        } else {
+            col.class(&format!("cache:{kind}:equal"), 1);
+        }
+    };
+    // first touch on the long-lived engine (hit or miss depending on what this worker ran before)
+    let (d, rep0) = run(Plan::Shared);
+    check("first-touch", Plan::Shared, &d);
+    let n = rep0.calls;
+    col.cache_max_calls.fetch_max(n as u64, Ordering::Relaxed);
+    if n == 0 {
+        col.class("cache:no-wasm-call", 1);
+        return;
+    }
+    // now every code hash of this transaction is in the shared cache: all hit
+    let (d, rep) = run(Plan::Shared);
+    check("all-hit", Plan::Shared, &d);
+    if rep != rep0 {
+        col.info("cache:instantiate-sequence-differs-between-runs", 1);
+    }
+    for plan in miss_plans(n) {
+        let kind = match &plan {
+            Plan::Miss(v) if v.len() == 1 => "one-miss",
+            Plan::Miss(_) => "two-misses",
+            _ => "all-miss",
+        };
+        let (d, rep) = run(plan.clone());
+        col.cache_forced_misses.fetch_add(
+            match &plan {
+                Plan::Miss(v) => v.len() as u64,
+                _ => rep.calls as u64,
+            },
+            Ordering::Relaxed,
+        );
+        check(kind, plan, &d);
+        if rep != rep0 {
+            col.info("cache:instantiate-sequence-differs-between-runs", 1);
+        }
+    }
+}
+
+// ------------------------------------------------------------------------------------------------
+// the explorer machine
+// ------------------------------------------------------------------------------------------------
+
+struct DetMachine<'a> {
+    root: &'a Root,
+    role: Role,
+    col: &'a Collector,
+    pool: &'a Pool,
+    menu: Vec<Op>,
+}
+
+impl<'a> Machine for DetMachine<'a> {
+    type Op = Op;
+    type St = St;
+
+    fn init(&self) -> St {
+        St::new(self.root)
+    }
+
+    fn ops(&self, st: &St, _depth: usize) -> Vec<Op> {
+        // the explorer has finished rebuilding this state; from now on steps are the real subjects
+        st.live.set(true);
+        self.menu.clone()
+    }
+
+    fn fork(&self, st: &St) -> Option<St> {
+        Some(st.fork())
+    }
+
+    fn step(&self, st: &mut St, op: &Op) -> Result<String, (String, String)> {
+        let op = *op;
+        let col = self.col;
+        let nonce = st.next_nonce(op);
+        let exe = match build_exe(&mut st.sim, self.root, op, nonce) {
+            Ok(e) => e,
+            Err(p) => mc_core::machinery_error(&format!("C01: cannot build executable for {} after {}: {p}", op.name(), st.hist_string())),
+        };
+        let key = format!("{}|{}", st.hist_string(), op.name());
+        let hist = st.hist.clone();
+
+        if !st.live.get() {
+            // rebuilding a frontier state: one plain run on the worker's long-lived real VM; as a by-product the
+            // digest must equal the D0 logged when this transition was first explored (an earlier layer)
+            let r = self.pool.with(|v| run_once(st.sim.substate_db(), &v.real, &exe.cfg, &exe.exe));
+            col.ex(1);
+            let d = outcome_of(&r);
+            let logged = col.log.lock().unwrap().get(&key).cloned();
+            if let Some((_, d0, _)) = logged {
+                col.replay_cmp.fetch_add(1, Ordering::Relaxed);
+                if d0 != d {
+                    col.violation(
+                        "rerun:later-layer".into(),
+                        format!("re-execution of {} after {} while rebuilding a deeper state gave {} instead of the logged {}", op.name(), hist_string(&hist), mc_core::truncate(&d, 24), mc_core::truncate(&d0, 24)),
+                        json!({"dimension": "rerun", "history": names(&hist), "op": op.name()}),
+                    );
+                } else {
+                    col.class("rerun:equal", 1);
+                }
+            }
+            let class = r.as_ref().map(receipt_class).unwrap_or_else(|_| "engine-panic".into());
+            st.apply(self.root, op, r.as_ref().ok());
+            return Ok(format!("{}:{}", op.name(), class));
+        }
+
+        // ---- D0: sequential run, default config, brand-new real VmModules (cold cache)
+        let r0 = run_once(st.sim.substate_db(), &new_real_vm(), &exe.cfg, &exe.exe);
+        col.ex(1);
+        let d0 = outcome_of(&r0);
+        let class = r0.as_ref().map(receipt_class).unwrap_or_else(|_| "engine-panic".into());
+        if r0.is_err() {
+            col.info(&format!("engine-panic:{}", op.name()), 1);
+        }
+        col.log.lock().unwrap().insert(key.clone(), (exe.id.clone(), d0.clone(), class.clone()));
+
+        {
+            let db = st.sim.substate_db();
+            match self.role {
+                Role::Parent => self.pool.with(|v| {
+                    sweep_configs(col, db, &v.real, &exe, &d0, false, &hist, op, |_, _| {});
+                    sweep_cache(col, db, &v.det, &exe, &d0, &hist, op);
+                }),
+                Role::Child => self.pool.with(|v| {
+                    sweep_configs(col, db, &v.real, &exe, &d0, true, &hist, op, |label, d| {
+                        col.klog.lock().unwrap().insert(format!("{key}|{label}"), d.to_string());
+                    });
+                }),
+            }
+        }
+
+        st.apply(self.root, op, r0.as_ref().ok());
+        if self.role == Role::Parent {
+            col.dcand.lock().unwrap().entry(st.raw_id()).or_default().push(st.hist.clone());
+        }
+        Ok(format!("{}:{}", op.name(), class))
+    }
+
+    fn fingerprint(&self, st: &St) -> Vec<u8> {
+        st.fp.clone()
+    }
+}
+
+fn tier_depth(ctx: &Ctx) -> usize {
+    ctx.pick(2, 3)
+}
+
+fn bfs_wall_cap(ctx: &Ctx) -> f64 {
+    ctx.pick(150.0, 2400.0)
+}
+
+// ------------------------------------------------------------------------------------------------
+// child process: same exploration, kernel trace on, results in a log file
+// ------------------------------------------------------------------------------------------------
+
+fn child(ctx: Ctx, path: String) -> ! {
+    let _keepalive = WasmiEngine::default();
+    let root = build_root();
+    let col = Collector::default();
+    let pool = Pool(Mutex::new(vec![]));
+    let m = DetMachine { root: &root, role: Role::Child, col: &col, pool: &pool, menu: full_menu() };
+    let stats = bfs(&ctx, &m, "child", tier_depth(&ctx), 2_000_000, bfs_wall_cap(&ctx));
+    let mut out = String::new();
+    out.push_str(&format!("S|{}|{}|{}|{}\n", stats.states, stats.transitions, stats.depth_completed, stats.capped as u8));
+    out.push_str(&format!("N|{}|{}\n", col.executions.load(Ordering::Relaxed), col.cfg_runs.load(Ordering::Relaxed)));
+    for (k, (id, d0, _)) in col.log.lock().unwrap().iter() {
+        out.push_str(&format!("P|{k}|{id}|{d0}\n"));
+    }
+    for (k, d) in col.klog.lock().unwrap().iter() {
+        out.push_str(&format!("K|{k}|{d}\n"));
+    }
+    for (k, w, c) in col.violations.lock().unwrap().iter() {
+        out.push_str(&format!("V|{}\n", json!({"key": k, "what": w, "case": c})));
+    }
+    for (k, n) in col.infos.lock().unwrap().iter() {
+        out.push_str(&format!("I|{k}|{n}\n"));
+    }
+    if ctx.has_violations() {
+        out.push_str("E|explorer reported step failures in the child\n");
+    }
+    let tmp = format!("{path}.tmp");
+    let ok = std::fs::File::create(&tmp).and_then(|mut f| f.write_all(out.as_bytes())).and_then(|_| std::fs::rename(&tmp, &path));
+    if let Err(e) = ok {
+        eprintln!("C01 child: cannot write log {path}: {e}");
+        std::process::exit(2);
+    }
+    std::process::exit(0)
+}
+
+// ------------------------------------------------------------------------------------------------
+// (d) history independence
+// ------------------------------------------------------------------------------------------------
+
+fn history_pass(ctx: &Ctx, root: &Root, col: &Collector, pool: &Pool, menu: &[Op]) -> (usize, usize) {
+    let mut groups: Vec<Vec<Vec<Op>>> = vec![];
+    for (_, hs) in col.dcand.lock().unwrap().iter() {
+        let mut d: Vec<Vec<Op>> = hs.clone();
+        d.sort_by_key(|h| (h.len(), hist_string(h)));
+        d.dedup();
+        if d.len() >= 2 {
+            groups.push(d);
+        }
+    }
+    groups.sort_by_key(|g| (g[0].len(), hist_string(&g[0])));
+    let total = groups.len();
+    let cap = ctx.pick(400, 3000);
+    let members = 2;
+    groups.truncate(cap);
+    let checked = groups.len();
+    const D_NONCE: u32 = 9_000_000;
+    par_map(ctx.threads, &groups, |g| {
+        pool.with(|v| {
+            let mut sts: Vec<St> = vec![];
+            for h in g.iter().take(members) {
+                match rebuild(root, h, &v.real) {
+                    Ok(st) => {
+                        col.ex(h.len() as u64);
+                        sts.push(st)
+                    }
+                    Err(e) => mc_core::machinery_error(&format!("C01 history pass: cannot rebuild {}: {e}", hist_string(h))),
+                }
+            }
+            let (first, rest) = sts.split_at_mut(1);
+            let s0 = &mut first[0];
+            for si in rest.iter_mut() {
+                if s0.sim.substate_db() != si.sim.substate_db() {
+                    col.info("history:raw-id-equal-but-databases-differ(skipped)", 1);
+                    continue;
+                }
+                for (i, op) in menu.iter().enumerate() {
+                    let e0 = build_exe(&mut s0.sim, root, *op, D_NONCE + i as u32);
+                    let ei = build_exe(&mut si.sim, root, *op, D_NONCE + i as u32);
+                    let (Ok(e0), Ok(ei)) = (e0, ei) else {
+                        col.info("history:executable-not-buildable(skipped)", 1);
+                        continue;
+                    };
+                    if e0.exe != ei.exe {
+                        col.info("history:executables-differ-on-equal-databases(skipped)", 1);
+                        continue;
+                    }
+                    let d0 = outcome_of(&run_once(s0.sim.substate_db(), &v.real, &e0.cfg, &e0.exe));
+                    let di = outcome_of(&run_once(si.sim.substate_db(), &v.real, &ei.cfg, &ei.exe));
+                    col.ex(2);
+                    col.hist_cmp.fetch_add(1, Ordering::Relaxed);
+                    if d0 != di {
+                        col.violation(
+                            "history".into(),
+                            format!(
+                                "{} gives {} after {} but {} after {} although the two databases are byte-identical",
+                                op.name(),
+                                mc_core::truncate(&d0, 24),
+                                hist_string(&s0.hist),
+                                mc_core::truncate(&di, 24),
+                                hist_string(&si.hist)
+                            ),
+                            json!({"dimension": "history", "history": names(&s0.hist), "other_history": names(&si.hist), "op": op.name()}),
+                        );
+                    } else {
+                        col.class("history:equal", 1);
+                    }
+                }
+            }
+        })
+    });
+    (total, checked)
+}
+
+// ------------------------------------------------------------------------------------------------
+// (e) schedules
+// ------------------------------------------------------------------------------------------------
+
+#[derive(Clone, Debug)]
+struct SchedSubject {
+    hist: Vec<Op>,
+    ops: Vec<Op>,
+    warm: bool,
+}
+
+struct SchedResult {
+    schedules: u64,
+    by_preemptions: [u64; 3],
+    capped: bool,
+    max_points: usize,
+}
+
+const PREEMPTION_BOUND: u32 = 2;
+
+fn multisets(items: &[Op], k: usize) -> Vec<Vec<Op>> {
+    fn rec(items: &[Op], k: usize, start: usize, cur: &mut Vec<Op>, out: &mut Vec<Vec<Op>>) {
+        if cur.len() == k {
+            out.push(cur.clone());
+            return;
+        }
+        for i in start..items.len() {
+            cur.push(items[i]);
+            rec(items, k, i, cur, out);
+            cur.pop();
+        }
+    }
+    let mut out = vec![];
+    rec(items, k, 0, &mut vec![], &mut out);
+    out
+}
+
+fn prepare_subject(root: &Root, col: &Collector, real: &DefaultVmModules, sj: &SchedSubject) -> (St, Vec<Exe>, Vec<String>) {
+    let mut st = rebuild(root, &sj.hist, real).unwrap_or_else(|e| mc_core::machinery_error(&format!("C01 schedules: cannot rebuild {}: {e}", hist_string(&sj.hist))));
+    col.ex(sj.hist.len() as u64);
+    let mut exes = vec![];
+    let mut d0s = vec![];
+    for op in &sj.ops {
+        let nonce = st.next_nonce(*op);
+        let exe = build_exe(&mut st.sim, root, *op, nonce).unwrap_or_else(|e| mc_core::machinery_error(&format!("C01 schedules: cannot build {}: {e}", op.name())));
+        let d0 = outcome_of(&run_once(st.sim.substate_db(), &new_real_vm(), &exe.cfg, &exe.exe));
+        col.ex(1);
+        exes.push(exe);
+        d0s.push(d0);
+    }
+    (st, exes, d0s)
+}
+
+fn fresh_sched_vm(db: &InMemorySubstateDatabase, exes: &[Exe], warm: bool) -> DetVm {
+    let vm = new_det_vm();
+    if warm {
+        for e in exes {
+            let _ = with_ctl(Plan::Shared, None, || run_once(db, &vm, &e.cfg, &e.exe));
+        }
+    }
+    vm
+}
+
+fn explore_subject(root: &Root, col: &Collector, pool: &Pool, sj: &SchedSubject, cap: u64) -> SchedResult {
+    let (st, exes, d0s) = pool.with(|v| prepare_subject(root, col, &v.real, sj));
+    let db = st.sim.substate_db();
+    let jobs: Vec<Job> = exes.iter().map(|e| Job { exe: &e.exe, cfg: &e.cfg }).collect();
+    // sequential instantiate sequences (informational comparison only)
+    let seq_reports: Vec<CallReport> = {
+        let vm = new_det_vm();
+        exes.iter().map(|e| with_ctl(Plan::Shared, None, || run_once(db, &vm, &e.cfg, &e.exe)).1).collect()
+    };
+    col.ex(exes.len() as u64);
+    let mut res = SchedResult { schedules: 0, by_preemptions: [0; 3], capped: false, max_points: 0 };
+    let mut prefix: Vec<usize> = vec![];
+    loop {
+        let vm = fresh_sched_vm(db, &exes, sj.warm);
+        let run = run_schedule(db, &vm, &jobs, &prefix);
+        col.ex(jobs.len() as u64 * if sj.warm { 2 } else { 1 });
+        res.schedules += 1;
+        res.max_points = res.max_points.max(run.decisions.len());
+        let pre = run.decisions.iter().filter(|d| d.is_preemption()).count();
+        res.by_preemptions[pre.min(2)] += 1;
+        if run.diverged {
+            col.info("schedule:prefix-not-replayable(thread finished earlier than in the previous run)", 1);
+        }
+        let choices: Vec<usize> = run.decisions.iter().map(|d| d.chosen).collect();
+        for t in 0..jobs.len() {
+            let got = match &run.outcomes[t] {
+                Ok(d) => d.clone(),
+                Err(p) => format!("PANIC:{p}"),
+            };
+            if run.reports[t] != seq_reports[t] {
+                col.info("schedule:instantiate-sequence-differs-from-sequential-run", 1);
+            }
+            if got != d0s[t] {
+                // run the very same schedule again before believing it
+                let vm2 = fresh_sched_vm(db, &exes, sj.warm);
+                let again = run_schedule(db, &vm2, &jobs, &choices);
+                let got2 = match &again.outcomes[t] {
+                    Ok(d) => d.clone(),
+                    Err(p) => format!("PANIC:{p}"),
+                };
+                let same_trace = again.trace == run.trace;
+                col.violation(
+                    format!("schedule:{}", if sj.warm { "warm" } else { "cold" }),
+                    format!(
+                        "thread {t} ({}) got {} under schedule [{}] but {} sequentially (state after {}, threads {:?}); same schedule again: {} (trace {})",
+                        sj.ops[t].name(),
+                        mc_core::truncate(&got, 24),
+                        trace_string(&run.trace),
+                        mc_core::truncate(&d0s[t], 24),
+                        hist_string(&sj.hist),
+                        names(&sj.ops),
+                        mc_core::truncate(&got2, 24),
+                        if same_trace { "identical" } else { "DIFFERENT" }
+                    ),
+                    json!({"dimension": "schedule", "history": names(&sj.hist), "ops": names(&sj.ops), "warm": sj.warm, "choices": choices, "thread": t}),
+                );
+            } else {
+                col.class("schedule:thread-equals-sequential", 1);
+            }
+        }
+        if res.schedules >= cap {
+            res.capped = next_prefix(&run.decisions, PREEMPTION_BOUND).is_some();
+            break;
+        }
+        match next_prefix(&run.decisions, PREEMPTION_BOUND) {
+            Some(p) => prefix = p,
+            None => break,
+        }
+    }
+    col.sched_runs.fetch_add(res.schedules, Ordering::Relaxed);
+    col.sched_subjects.fetch_add(1, Ordering::Relaxed);
+    col.sched_max_points.fetch_max(res.max_points as u64, Ordering::Relaxed);
+    res
+}
+
+fn schedule_subjects(ctx: &Ctx, menu: &[Op]) -> Vec<SchedSubject> {
+    let mut v = vec![];
+    let wasm_heavy = [Op::Std(Tx::Faucet), Op::Std(Tx::PublishWat), Op::CalcLoop, Op::CalcPingPong, Op::WasmMix];
+    // one representative per distinct pattern of WASM use / outcome kind (quick tier pairs)
+    let representative = [
+        Op::Std(Tx::TransferF),
+        Op::Std(Tx::MintNf7),
+        Op::Std(Tx::RecallRc),
+        Op::Std(Tx::FailAssert),
+        Op::Std(Tx::ContingentOk),
+        Op::Std(Tx::Faucet),
+        Op::Std(Tx::NextRound),
+        Op::Std(Tx::PublishWat),
+        Op::CalcLoop,
+        Op::CalcPingPong,
+        Op::WasmMix,
+    ];
+    let mut push_pairs = |hist: &Vec<Op>, ops: &[Op], self_pairs_of: &[Op], all_warm: bool| {
+        let mut pairs = multisets(ops, 2);
+        for o in self_pairs_of {
+            if !ops.contains(o) {
+                pairs.push(vec![*o, *o]);
+            }
+        }
+        for pair in pairs {
+            v.push(SchedSubject { hist: hist.clone(), ops: pair.clone(), warm: false });
+            let heavy = pair.iter().all(|o| wasm_heavy.contains(o));
+            if all_warm || pair[0] == pair[1] || heavy {
+                v.push(SchedSubject { hist: hist.clone(), ops: pair, warm: true });
+            }
+        }
+    };
+    if ctx.quick() {
+        // root state: all pairs of the representatives + the self-pair of every menu transaction
+        push_pairs(&vec![], &representative, menu, false);
+    } else {
+        // root state: all pairs of the whole menu, cold and warm; two deeper states: all pairs, cold
+        push_pairs(&vec![], menu, &[], true);
+        push_pairs(&vec![Op::Std(Tx::FreezeB)], menu, &[], false);
+        push_pairs(&vec![Op::Std(Tx::NextRound)], menu, &[], false);
+        let sub = [Op::Std(Tx::TransferF), Op::Std(Tx::FailAssert), Op::Std(Tx::ContingentOk), Op::Std(Tx::Faucet), Op::Std(Tx::NextRound), Op::CalcPingPong, Op::WasmMix];
+        for t in multisets(&sub, 3) {
+            v.push(SchedSubject { hist: vec![], ops: t, warm: false });
+        }
+    }
+    v
+}
+
+/// Free-running smoke pass (decides nothing): threads released by a barrier execute transactions on one cold
+/// shared engine without the scheduler.
+fn smoke_pass(ctx: &Ctx, root: &Root, col: &Collector, menu: &[Op]) {
+    let threads = 8usize;
+    let rounds = ctx.pick(12, 60);
+    let real = new_real_vm();
+    let mut st = rebuild(root, &[], &real).unwrap();
+    let mut exes = vec![];
+    let mut d0s = vec![];
+    for op in menu {
+        let nonce = st.next_nonce(*op);
+        let e = build_exe(&mut st.sim, root, *op, nonce).unwrap_or_else(|e| mc_core::machinery_error(&format!("C01 smoke: {e}")));
+        d0s.push(outcome_of(&run_once(st.sim.substate_db(), &new_real_vm(), &e.cfg, &e.exe)));
+        exes.push(e);
+    }
+    col.ex(menu.len() as u64);
+    let db = st.sim.substate_db();
+    for round in 0..rounds {
+        let vm = new_det_vm();
+        let barrier = std::sync::Barrier::new(threads);
+        let outs: Vec<(usize, String)> = std::thread::scope(|s| {
+            let hs: Vec<_> = (0..threads)
+                .map(|i| {
+                    // even rounds: all threads the same transaction; odd rounds: a sliding window of the menu
+                    let k = if round % 2 == 0 { (round / 2) % exes.len() } else { (round * threads + i) % exes.len() };
+                    let e = &exes[k];
+                    let vm = &vm;
+                    let barrier = &barrier;
+                    s.spawn(move || {
+                        barrier.wait();
+                        let (r, _) = with_ctl(Plan::Shared, None, || run_once(db, vm, &e.cfg, &e.exe));
+                        (k, outcome_of(&r))
+                    })
+                })
+                .collect();
+            hs.into_iter().map(|h| h.join().unwrap_or((0, "PANIC:join".into()))).collect()
+        });
+        for (k, d) in outs {
+            col.ex(1);
+            col.smoke_runs.fetch_add(1, Ordering::Relaxed);
+            if d != d0s[k] {
+                col.violation(
+                    "smoke:free-running".into(),
+                    format!("free-running thread executing {} on a shared cold engine got {} instead of {} (round {round}; not reproducible by construction)", menu[k].name(), mc_core::truncate(&d, 24), mc_core::truncate(&d0s[k], 24)),
+                    json!({"dimension": "smoke", "history": [], "op": menu[k].name(), "round": round}),
+                );
+            } else {
+                col.class("smoke:equal", 1);
+            }
+        }
+    }
+}
+
+// ------------------------------------------------------------------------------------------------
+// parent
+// ------------------------------------------------------------------------------------------------
+
+struct ChildLog {
+    stats: Vec<u64>,
+    execs: u64,
+    cfg_runs: u64,
+    p: BTreeMap<String, (String, String)>,
+    k: BTreeMap<String, String>,
+    v: Vec<Value>,
+    infos: BTreeMap<String, u64>,
+    errors: Vec<String>,
+}
+
+fn parse_child_log(txt: &str) -> ChildLog {
+    let mut c = ChildLog { stats: vec![], execs: 0, cfg_runs: 0, p: BTreeMap::new(), k: BTreeMap::new(), v: vec![], infos: BTreeMap::new(), errors: vec![] };
+    for line in txt.lines() {
+        let Some((tag, rest)) = line.split_once('|') else { continue };
+        match tag {
+            "S" => c.stats = rest.split('|').filter_map(|x| x.parse().ok()).collect(),
+            "N" => {
+                let v: Vec<u64> = rest.split('|').filter_map(|x| x.parse().ok()).collect();
+                c.execs = *v.first().unwrap_or(&0);
+                c.cfg_runs = *v.get(1).unwrap_or(&0);
+            }
+            "P" => {
+                // history|op|id|d0
+                let f: Vec<&str> = rest.rsplitn(3, '|').collect();
+                if f.len() == 3 {
+                    c.p.insert(f[2].to_string(), (f[1].to_string(), f[0].to_string()));
+                }
+            }
+            "K" => {
+                let f: Vec<&str> = rest.rsplitn(2, '|').collect();
+                if f.len() == 2 {
+                    c.k.insert(f[1].to_string(), f[0].to_string());
+                }
+            }
+            "V" => {
+                if let Ok(v) = serde_json::from_str::<Value>(rest) {
+                    c.v.push(v)
+                }
+            }
+            "I" => {
+                let f: Vec<&str> = rest.rsplitn(2, '|').collect();
+                if f.len() == 2 {
+                    c.infos.insert(f[1].to_string(), f[0].parse().unwrap_or(0));
+                }
+            }
+            "E" => c.errors.push(rest.to_string()),
+            _ => {}
+        }
+    }
+    c
+}
+
+fn bench() -> ! {
+    use std::time::Instant;
+    let _keepalive = WasmiEngine::default();
+    let root = build_root();
+    let real = new_real_vm();
+    let mut st = rebuild(&root, &[], &real).unwrap();
+    let t = |name: &str, n: usize, f: &mut dyn FnMut()| {
+        let t0 = Instant::now();
+        for _ in 0..n {
+            f();
+        }
+        eprintln!("BENCH {name}: {:.3} ms", t0.elapsed().as_secs_f64() * 1000.0 / n as f64);
+    };
+    t("new_real_vm", 200, &mut || drop(new_real_vm()));
+    t("new_det_vm", 200, &mut || drop(new_det_vm()));
+    t("fork", 50, &mut || drop(st.fork()));
+    t("compute_fp", 50, &mut || drop(compute_fp(&mut st.sim, &root)));
+    for op in [Op::Std(Tx::TransferF), Op::Std(Tx::Faucet), Op::Std(Tx::NextRound), Op::WasmMix, Op::Std(Tx::PublishWat)] {
+        let n = op.name();
+        t(&format!("build_exe {n}"), 50, &mut || drop(build_exe(&mut st.sim, &root, op, 5)));
+        let e = build_exe(&mut st.sim, &root, op, 5).unwrap();
+        let db = st.sim.substate_db();
+        t(&format!("run cold real {n}"), 50, &mut || drop(run_once(db, &new_real_vm(), &e.cfg, &e.exe)));
+        t(&format!("run warm real {n}"), 50, &mut || drop(run_once(db, &real, &e.cfg, &e.exe)));
+        let det = new_det_vm();
+        t(&format!("run warm det {n}"), 50, &mut || drop(with_ctl(Plan::Shared, None, || run_once(db, &det, &e.cfg, &e.exe))));
+        t(&format!("run allmiss det {n}"), 50, &mut || drop(with_ctl(Plan::AllMiss, None, || run_once(db, &det, &e.cfg, &e.exe))));
+        let mut ktc = e.cfg.clone();
+        ktc.enable_kernel_trace = true;
+        t(&format!("run warm real kernel-trace {n}"), 20, &mut || drop(run_once(db, &real, &ktc, &e.exe)));
+        let jobs = vec![Job { exe: &e.exe, cfg: &e.cfg }, Job { exe: &e.exe, cfg: &e.cfg }];
+        t(&format!("schedule pair cold {n}"), 30, &mut || drop(run_schedule(db, &new_det_vm(), &jobs, &[])));
+        t(&format!("schedule pair warm-engine {n}"), 30, &mut || drop(run_schedule(db, &det, &jobs, &[])));
+    }
+    std::process::exit(0)
+}
+
+pub fn run(ctx: Ctx) -> ! {
+    if std::env::var("MC_DET_BENCH").is_ok() {
+        bench();
+    }
+    if ctx.replay.is_some() {
+        replay(ctx);
+    }
+    if let Ok(path) = std::env::var("MC_DET_CHILD_LOG") {
+        child(ctx, path);
+    }
+    parent(ctx)
+}
+
+fn parent(mut ctx: Ctx) -> ! {
+    // process B (kernel trace on: slower per run) gets 60 % of the workers while both explore; the later passes of
+    // process A use all workers after B has exited
+    let total_threads = ctx.threads.max(2);
+    let child_threads = ((total_threads * 6 + 9) / 10).clamp(1, total_threads - 1);
+    let parent_threads = (total_threads - child_threads).max(1);
+
+    // ---- (c) start the second OS process first: it explores concurrently
+    let dir = ctx.scratch_dir("child");
+    let log_path = dir.join("digests.log");
+    let err_path = dir.join("stderr.log");
+    let exe_path = std::env::current_exe().unwrap_or_else(|e| mc_core::machinery_error(&format!("C01: current_exe: {e}")));
+    let err_file = std::fs::File::create(&err_path).unwrap_or_else(|e| mc_core::machinery_error(&format!("C01: {e}")));
+    let mut child_proc = std::process::Command::new(exe_path)
+        .arg("C01")
+        .arg(if ctx.quick() { "quick" } else { "thorough" })
+        .env("MC_DET_CHILD_LOG", &log_path)
+        .env("VERIF_THREADS", child_threads.to_string())
+        .stdin(std::process::Stdio::null())
+        .stdout(std::process::Stdio::null())
+        .stderr(err_file)
+        .spawn()
+        .unwrap_or_else(|e| mc_core::machinery_error(&format!("C01: cannot start child process: {e}")));
+
+    ctx.threads = parent_threads;
+    let _keepalive = WasmiEngine::default();
+    let root = build_root();
+    let col = Collector::default();
+    let pool = Pool(Mutex::new(vec![]));
+    let menu = full_menu();
+    let depth = tier_depth(&ctx);
+
+    // ---- exploration with (a, kernel trace off) and (b) on every transition
+    let t0 = ctx.elapsed_s();
+    let m = DetMachine { root: &root, role: Role::Parent, col: &col, pool: &pool, menu: menu.clone() };
+    let stats: BfsStats = bfs(&ctx, &m, "world+pool+validator+wat-packages", depth, 2_000_000, bfs_wall_cap(&ctx));
+    let t_bfs = ctx.elapsed_s() - t0;
+
+    // ---- join the child (its workers become free for the remaining passes)
+    let t0 = ctx.elapsed_s();
+    let status = child_proc.wait().unwrap_or_else(|e| mc_core::machinery_error(&format!("C01: waiting for child: {e}")));
+    let t_wait = ctx.elapsed_s() - t0;
+    if !status.success() {
+        let tail = std::fs::read_to_string(&err_path).unwrap_or_default();
+        let tail: String = tail.lines().rev().take(15).collect::<Vec<_>>().into_iter().rev().collect::<Vec<_>>().join("\n");
+        mc_core::machinery_error(&format!("C01: child process failed ({status}); stderr tail:\n{tail}"));
+    }
+    ctx.threads = total_threads;
+
+    // ---- (d)
+    let t0 = ctx.elapsed_s();
+    let (d_groups, d_checked) = history_pass(&ctx, &root, &col, &pool, &menu);
+    let t_hist = ctx.elapsed_s() - t0;
+
+    // ---- (e)
+    let t0 = ctx.elapsed_s();
+    let subjects = schedule_subjects(&ctx, &menu);
+    let sched_cap: u64 = ctx.pick(3_000, 20_000);
+    let results = par_map(ctx.threads, &subjects, |sj| explore_subject(&root, &col, &pool, sj, sched_cap));
+    let sched_capped = results.iter().filter(|r| r.capped).count();
+    let mut by_pre = [0u64; 3];
+    for r in &results {
+        for i in 0..3 {
+            by_pre[i] += r.by_preemptions[i];
+        }
+    }
+    let pairs = subjects.iter().filter(|s| s.ops.len() == 2).count();
+    let triples = subjects.iter().filter(|s| s.ops.len() == 3).count();
+    let t_sched = ctx.elapsed_s() - t0;
+
+    // ---- smoke
+    let t0 = ctx.elapsed_s();
+    smoke_pass(&ctx, &root, &col, &menu);
+    let t_smoke = ctx.elapsed_s() - t0;
+
+    // ---- compare the logs of the two processes line by line
+    let txt = std::fs::read_to_string(&log_path).unwrap_or_else(|e| mc_core::machinery_error(&format!("C01: child log unreadable: {e}")));
+    let cl = parse_child_log(&txt);
+    if !cl.errors.is_empty() {
+        mc_core::machinery_error(&format!("C01: child reported: {:?}", cl.errors));
+    }
+    let child_capped = cl.stats.get(3).copied().unwrap_or(1) != 0;
+    let mine = col.log.lock().unwrap().clone();
+    let mut compared_p = 0u64;
+    let mut compared_k = 0u64;
+    for (k, (id, d0, _)) in &mine {
+        match cl.p.get(k) {
+            Some((cid, cd0)) => {
+                compared_p += 1;
+                if cid != id {
+                    mc_core::machinery_error(&format!("C01: the two processes built different executables for {k} ({id} vs {cid}) although every earlier digest agreed: harness nondeterminism"));
+                }
+                if cd0 != d0 {
+                    let (h, o) = k.rsplit_once('|').unwrap_or(("-", k));
+                    col.violation(
+                        "process:baseline".into(),
+                        format!("{o} after {h}: process A computed {} and process B {} for the same executable on the same history", mc_core::truncate(d0, 24), mc_core::truncate(cd0, 24)),
+                        json!({"dimension": "process", "history": parse_hist(h).map(|x| names(&x)).unwrap_or_default(), "op": o}),
+                    );
+                } else {
+                    col.class("process:equal", 1);
+                }
+            }
+            None => {
+                if !(stats.capped || child_capped) {
+                    mc_core::machinery_error(&format!("C01: child did not explore {k} although no cap was hit and all digests agree: harness nondeterminism"));
+                }
+            }
+        }
+    }
+    if !(stats.capped || child_capped) && cl.p.len() != mine.len() {
+        mc_core::machinery_error(&format!("C01: the two processes explored different transition sets ({} vs {})", mine.len(), cl.p.len()));
+    }
+    for (k, d) in &cl.k {
+        // key = history|op|cfg
+        let Some((ho, cfg)) = k.rsplit_once('|') else { continue };
+        if let Some((_, d0, _)) = mine.get(ho) {
+            compared_k += 1;
+            if d != d0 {
+                let (h, o) = ho.rsplit_once('|').unwrap_or(("-", ho));
+                col.violation(
+                    format!("config:{cfg}"),
+                    format!("{o} after {h}: digest {} under {cfg} (process B) differs from baseline {} (process A)", mc_core::truncate(d, 24), mc_core::truncate(d0, 24)),
+                    json!({"dimension": "config", "history": parse_hist(h).map(|x| names(&x)).unwrap_or_default(), "op": o, "config": cfg, "kernel_trace": true}),
+                );
+            } else {
+                col.class("config:equal", 1);
+            }
+        }
+    }
+    for v in &cl.v {
+        let g = |k: &str| v.get(k).and_then(|x| x.as_str()).unwrap_or("").to_string();
+        col.violation(g("key"), format!("(process B) {}", g("what")), v.get("case").cloned().unwrap_or(Value::Null));
+    }
+    for (k, n) in &cl.infos {
+        col.info(&format!("child:{k}"), *n);
+    }
+
+    // ---- hand everything to the evidence writer
+    for (k, n) in col.classes.lock().unwrap().iter() {
+        ctx.class(k, *n);
+    }
+    for (k, n) in col.infos.lock().unwrap().iter() {
+        ctx.info(k, *n);
+    }
+    let vs = std::mem::take(&mut *col.violations.lock().unwrap());
+    for (k, w, c) in vs {
+        ctx.violation(k, w, c);
+    }
+    let execs = col.executions.load(Ordering::Relaxed) + cl.execs;
+    ctx.add_evals(execs.saturating_sub(stats.transitions));
+    let nontrivial = mine.values().filter(|(_, _, class)| class.starts_with("commit-")).count() as u64;
+    let classes_seen: BTreeSet<String> = mine.values().map(|x| x.2.clone()).collect();
+
+    let mut cov: Map<String, Value> = stats.coverage();
+    cov.insert("menu".into(), json!(names(&menu)));
+    cov.insert("bfs_depth".into(), json!(depth));
+    cov.insert("programs".into(), json!(subjects.len()));
+    cov.insert("state_tx_pairs".into(), json!(mine.len()));
+    cov.insert("state_tx_pairs_committing".into(), json!(nontrivial));
+    cov.insert("receipt_classes_seen".into(), json!(classes_seen.len()));
+    cov.insert("engine_executions_total".into(), json!(execs));
+    cov.insert(
+        "dimension_a_configs".into(),
+        json!({
+            "configs_per_pair": 24,
+            "runs_kernel_trace_off_process_A": col.cfg_runs.load(Ordering::Relaxed),
+            "runs_kernel_trace_on_process_B": cl.cfg_runs,
+            "kernel_trace_lines_compared": compared_k,
+            "values": "enable_kernel_trace {0,1} x enable_cost_breakdown {0,1} x execution_trace {None,Some(1),Some(16)} x enable_debug_information {0,1}",
+        }),
+    );
+    cov.insert(
+        "dimension_b_cache".into(),
+        json!({
+            "runs": col.cache_runs.load(Ordering::Relaxed),
+            "forced_misses": col.cache_forced_misses.load(Ordering::Relaxed),
+            "max_instantiate_calls_per_tx": col.cache_max_calls.load(Ordering::Relaxed),
+            "vectors": "first touch, all-hit, every single forced miss, every pair of forced misses, all-miss (if > 2 calls); a forced miss is answered by a brand-new real WasmiEngine, a hit by the long-lived one",
+        }),
+    );
+    cov.insert(
+        "dimension_c_process".into(),
+        json!({"processes": 2, "baseline_lines_compared": compared_p, "child_states": cl.stats.first(), "child_transitions": cl.stats.get(1), "child_capped": child_capped}),
+    );
+    cov.insert(
+        "dimension_d_history".into(),
+        json!({
+            "groups_of_byte_identical_databases_reached_by_different_paths": d_groups,
+            "groups_checked": d_checked,
+            "comparisons": col.hist_cmp.load(Ordering::Relaxed),
+            "reruns_in_later_layers_compared": col.replay_cmp.load(Ordering::Relaxed),
+        }),
+    );
+    cov.insert(
+        "dimension_e_schedules".into(),
+        json!({
+            "subjects": subjects.len(),
+            "pairs": pairs,
+            "triples": triples,
+            "schedules_executed": col.sched_runs.load(Ordering::Relaxed),
+            "schedules_by_preemptions_0_1_2": by_pre,
+            "preemption_bound": PREEMPTION_BOUND,
+            "max_scheduling_points_in_one_schedule": col.sched_max_points.load(Ordering::Relaxed),
+            "subjects_cut_by_schedule_cap": sched_capped,
+            "controlled_scheduling_points": "thread start, entry of every WasmEngine::instantiate (before the shared module cache is touched) and its return (before the instance is invoked); between two points exactly one thread runs (condvar hand-off), so every interleaving of these segments with <= 2 preemptions is enumerated exhaustively, on a cold and (where listed) a warm shared engine",
+            "not_controlled": "the interleaving of moka's internal get/insert steps inside one instantiate call, moka's housekeeping threads, and wasmi's lazy function translation inside one invoke: only exercised by the free-running smoke pass",
+            "smoke_free_running_executions": col.smoke_runs.load(Ordering::Relaxed),
+            "smoke_note": "8 barrier-released threads on one cold shared engine, no scheduler: a smoke test, it decides nothing",
+        }),
+    );
+    cov.insert("wall_s_parts".into(), json!({"bfs": t_bfs, "history": t_hist, "schedules": t_sched, "smoke": t_smoke, "waiting_for_child": t_wait}));
+    cov.insert("threads".into(), json!({"process_A_during_exploration": parent_threads, "process_B": child_threads, "process_A_later_passes": total_threads}));
+    let exhaustive = !stats.capped && !child_capped && sched_capped == 0 && d_checked == d_groups;
+    if !exhaustive {
+        ctx.note(format!(
+            "not exhaustive: bfs capped={} child capped={} schedule subjects capped={} history groups checked {}/{} (fully covered: every transition of the completed depth {} in dimensions a, b, c)",
+            stats.capped, child_capped, sched_capped, d_checked, d_groups, stats.depth_completed
+        ));
+    }
+    ctx.finish(
+        mc_core::Level::ModelChecking,
+        "breadth-first over all histories of menu transactions up to the depth; for every transition the executable is re-executed (never committed) under all 24 diagnostic configurations, all cache hit/miss vectors with <= 2 forced misses (+ all-miss), in a second OS process, on byte-identical databases reached by other paths, and on 2/3 threads under every schedule with <= 2 preemptions; oracle = equality of the consensus digest (outcome, state updates, events, logs, fee summary, fee source/destination, costing parameters) with the sequential baseline; non-trivial = (state, transaction) pairs whose baseline commits",
+        nontrivial,
+        exhaustive,
+        cov,
+        &[
+            "states with equal balances/supplies/epoch/freeze flag are merged by the explorer (they differ in fee dust, node ids of new entities and round number)",
+            "the digest excludes diagnostic-only receipt parts (fee_details, execution trace, debug information, resources usage) and the derived state_update_summary/system_structure",
+            "effects inside moka (its own atomics and housekeeping threads) and inside wasmi's lazy translation are not interleaved by the scheduler",
+            "std's RandomState differs for every hash map instance and process, so every compared run also varies all hash seeds",
+        ],
+    )
+}
+
+// ------------------------------------------------------------------------------------------------
+// replay of one recorded case
+// ------------------------------------------------------------------------------------------------
+
+fn replay(ctx: Ctx) -> ! {
+    if std::env::var("MC_DET_QUIET").is_err() {
+        // kernel-trace configurations print to stdout: re-exec with stdout discarded, report on stderr
+        let exe_path = std::env::current_exe().unwrap_or_else(|e| mc_core::machinery_error(&format!("C01: current_exe: {e}")));
+        let st = std::process::Command::new(exe_path)
+            .args(std::env::args().skip(1))
+            .env("MC_DET_QUIET", "1")
+            .stdout(std::process::Stdio::null())
+            .status()
+            .unwrap_or_else(|e| mc_core::machinery_error(&format!("C01 replay: {e}")));
+        let code = st.code().unwrap_or(2);
+        println!("C01 replay finished with status {code} (report above on stderr)");
+        std::process::exit(code);
+    }
+    let case = ctx.read_replay_case().unwrap_or_else(|| mc_core::machinery_error("no replay case"));
+    let strs = |k: &str| -> Vec<String> { case.get(k).and_then(|v| v.as_array()).map(|a| a.iter().filter_map(|x| x.as_str().map(String::from)).collect()).unwrap_or_default() };
+    let to_ops = |v: Vec<String>| -> Vec<Op> { v.iter().map(|n| op_by_name(n).unwrap_or_else(|| mc_core::machinery_error(&format!("unknown op {n}")))).collect() };
+    let hist = to_ops(strs("history"));
+    let dim = case.get("dimension").and_then(|v| v.as_str()).unwrap_or("").to_string();
+    let root = build_root();
+    let real = new_real_vm();
+    let mut bad = 0;
+    say!("C01 replay: dimension={dim} history={}", hist_string(&hist));
+    if dim == "schedule" {
+        let ops = to_ops(strs("ops"));
+        let warm = case.get("warm").and_then(|v| v.as_bool()).unwrap_or(false);
+        let choices: Vec<usize> = case.get("choices").and_then(|v| v.as_array()).map(|a| a.iter().filter_map(|x| x.as_u64().map(|y| y as usize)).collect()).unwrap_or_default();
+        let col = Collector::default();
+        let sj = SchedSubject { hist: hist.clone(), ops: ops.clone(), warm };
+        let (st, exes, d0s) = prepare_subject(&root, &col, &real, &sj);
+        let jobs: Vec<Job> = exes.iter().map(|e| Job { exe: &e.exe, cfg: &e.cfg }).collect();
+        for rep in 0..3 {
+            let vm = fresh_sched_vm(st.sim.substate_db(), &exes, warm);
+            let run = run_schedule(st.sim.substate_db(), &vm, &jobs, &choices);
+            say!("  run {rep}: trace [{}]", trace_string(&run.trace));
+            for t in 0..jobs.len() {
+                let got = match &run.outcomes[t] {
+                    Ok(d) => d.clone(),
+                    Err(p) => format!("PANIC:{p}"),
+                };
+                let ok = got == d0s[t];
+                if !ok {
+                    bad += 1;
+                }
+                say!("    thread {t} {}: {} sequential {} {}", ops[t].name(), got, d0s[t], if ok { "equal" } else { "DIFFERENT" });
+            }
+        }
+    } else {
+        let op = case.get("op").and_then(|v| v.as_str()).and_then(op_by_name).unwrap_or_else(|| mc_core::machinery_error("replay case has no op"));
+        let mut st = rebuild(&root, &hist, &real).unwrap_or_else(|e| mc_core::machinery_error(&format!("cannot rebuild: {e}")));
+        let nonce = st.next_nonce(op);
+        let exe = build_exe(&mut st.sim, &root, op, nonce).unwrap_or_else(|e| mc_core::machinery_error(&format!("cannot build: {e}")));
+        let db = st.sim.substate_db();
+        let d0 = outcome_of(&run_once(db, &new_real_vm(), &exe.cfg, &exe.exe));
+        say!("  baseline D0 = {d0}");
+        for i in 0..3 {
+            let d = outcome_of(&run_once(db, &new_real_vm(), &exe.cfg, &exe.exe));
+            if d != d0 {
+                bad += 1;
+            }
+            say!("  baseline again #{i}: {d} {}", if d == d0 { "equal" } else { "DIFFERENT" });
+        }
+        for kt in [false, true] {
+            for (label, cfg) in cfg_variants(&exe.cfg, kt) {
+                let d = outcome_of(&run_once(db, &real, &cfg, &exe.exe));
+                if d != d0 {
+                    bad += 1;
+                    say!("  config {label}: {d} DIFFERENT");
+                }
+            }
+        }
+        say!("  24 diagnostic configurations executed");
+        let det = new_det_vm();
+        let (r, rep) = with_ctl(Plan::Shared, None, || run_once(db, &det, &exe.cfg, &exe.exe));
+        let d = outcome_of(&r);
+        if d != d0 {
+            bad += 1;
+            say!("  cache first-touch: {d} DIFFERENT");
+        }
+        let mut plans = vec![Plan::Shared];
+        plans.extend(miss_plans(rep.calls));
+        for p in plans {
+            let (r, _) = with_ctl(p.clone(), None, || run_once(db, &det, &exe.cfg, &exe.exe));
+            let d = outcome_of(&r);
+            if d != d0 {
+                bad += 1;
+                say!("  cache {}: {d} DIFFERENT", p.label());
+            }
+        }
+        say!("  cache vectors executed ({} instantiate calls)", rep.calls);
+        let other = to_ops(strs("other_history"));
+        if dim == "history" && !other.is_empty() {
+            let mut st2 = rebuild(&root, &other, &real).unwrap_or_else(|e| mc_core::machinery_error(&format!("cannot rebuild: {e}")));
+            let same_db = st.sim.substate_db() == st2.sim.substate_db();
+            let e1 = build_exe(&mut st.sim, &root, op, 9_000_000).unwrap();
+            let e2 = build_exe(&mut st2.sim, &root, op, 9_000_000).unwrap();
+            let a = outcome_of(&run_once(st.sim.substate_db(), &real, &e1.cfg, &e1.exe));
+            let b = outcome_of(&run_once(st2.sim.substate_db(), &real, &e2.cfg, &e2.exe));
+            if a != b && same_db && e1.exe == e2.exe {
+                bad += 1;
+            }
+            say!("  history: databases identical={same_db} executables identical={} digests {a} vs {b}", e1.exe == e2.exe);
+        }
+    }
+    say!("C01 replay: {} difference(s) reproduced", bad);
+    std::process::exit(if bad > 0 { 1 } else { 0 })
 }
